@@ -2,6 +2,7 @@ package spine
 
 import (
 	"fmt"
+	"reflect"
 	"sync"
 
 	"github.com/enbility/ship-go/logging"
@@ -66,17 +67,42 @@ func (r *FunctionData[T]) UpdateData(remoteWrite, persist bool, newData *T, filt
 		return nil, model.NewErrorTypeFromString(fmt.Sprintf("partial updates are not supported for type '%s'", util.Type[T]().Name()))
 	}
 
-	if r.data == nil {
-		r.data = new(T)
+	// the update functions modify list items in place, so run them on a copy: the stored
+	// data, and copies of it handed out earlier, must not change if the update fails or
+	// shall not be persisted
+	workData := new(T)
+	if r.data != nil {
+		*workData = *r.data
+		cloneSliceFields(workData)
 	}
 
-	updater := any(r.data).(model.Updater)
+	updater := any(workData).(model.Updater)
 	data, success := updater.UpdateList(remoteWrite, persist, newData, filterPartial, filterDelete)
 	if !success {
 		return nil, model.NewErrorTypeFromString("update failed, likely not allowed to write")
 	}
 
+	if persist {
+		r.data = workData
+	}
+
 	return data, nil
+}
+
+// replace every slice field of the struct data points to with a copy of that slice
+func cloneSliceFields(data any) {
+	v := reflect.ValueOf(data).Elem()
+	if v.Kind() != reflect.Struct {
+		return
+	}
+
+	for i := 0; i < v.NumField(); i++ {
+		f := v.Field(i)
+		if f.Kind() != reflect.Slice || f.IsNil() || !f.CanSet() {
+			continue
+		}
+		f.Set(reflect.AppendSlice(reflect.MakeSlice(f.Type(), 0, f.Len()), f))
+	}
 }
 
 func (r *FunctionData[T]) DataCopyAny() any {
